@@ -341,6 +341,34 @@ fn inline_check(idx: u64, case: &TreeCase, got: &vtex::RunOut, acc: &mut Acc) {
     }
 }
 
+/// `\openin 0=<name>` then `\ifeof 0`. TeX §526: every character token up to the space belongs to the name,
+/// except an active one (here `~`, made \relax), which ends it; what follows it is typeset.
+fn judge_openin_name(idx: u64, name: &str, files: &BTreeMap<String, String>, acc: &mut Acc) {
+    acc.eval();
+    acc.nontrivial();
+    let (tex_name, leftover) = match name.find('~') {
+        Some(p) => (name[..p].to_string(), format!("{} ", &name[p + 1..])),
+        None => (name.to_string(), String::new()),
+    };
+    let want = format!("{leftover}{}", if files.contains_key(&tex_name) { "F" } else { "T" });
+    let prog = format!("\\let~\\relax\\scrollmode \\openin 0={name} \\ifeof 0 T\\else F\\fi %");
+    let case = || json!({"kind": "openin-name", "name": name, "program": prog, "files": files});
+    match vtex::run_fresh_with(&prog, |vm| {
+        let fs = vm.state.env.fs.borrow();
+        for (n, c) in files {
+            fs.add(&format!("{n}.tex"), c);
+        }
+    }) {
+        Outcome::Done(r) => {
+            if r.out != want || r.err.is_some() {
+                acc.fail(idx, case(), want, r.show(), "\\openin opened another file than the name TeX scans (§526)");
+            }
+        }
+        Outcome::Cutoff => acc.cutoffs += 1,
+        Outcome::Panic(p) => acc.fail(idx, case(), want, p.describe(), "the VM panicked"),
+    }
+}
+
 // ---------------------------------------------------------------- depth chain
 
 fn chain_case(n: usize, shape: usize) -> TreeCase {
@@ -893,17 +921,7 @@ fn main() {
             Some("inline") => judge_tree(0, &TreeCase::from_json(&case), &mut acc, true),
             Some("openin-name") => {
                 let files: BTreeMap<String, String> = case["files"].as_object().map(|o| o.iter().map(|(k, v)| (k.clone(), v.as_str().unwrap_or("").to_string())).collect()).unwrap_or_default();
-                let prog = case["program"].as_str().unwrap_or("").to_string();
-                match vtex::run_fresh_with(&prog, |vm| {
-                    let fs = vm.state.env.fs.borrow();
-                    for (n, c) in &files {
-                        fs.add(&format!("{n}.tex"), c);
-                    }
-                }) {
-                    Outcome::Done(r) => println!("REPLAY property=C19 openin-name program delivers: {}", r.show()),
-                    _ => println!("REPLAY property=C19 openin-name program: panic or cut-off"),
-                }
-                std::process::exit(0);
+                judge_openin_name(0, case["name"].as_str().unwrap_or(""), &files, &mut acc);
             }
             Some("history") => {
                 let h: Vec<Act> = case["actions"].as_array().map(|a| a.iter().map(Act::from_json).collect()).unwrap_or_default();
@@ -1059,34 +1077,10 @@ fn main() {
             if d[2] & 2 == 2 && !cut.is_empty() {
                 files.insert(cut, "Q\n".to_string());
             }
-            acc.eval();
-            acc.nontrivial();
             if !x.is_alphanumeric() {
                 acc.count("file_name_contains_char_token_of_category_other_than_11_12");
             }
-            // TeX: every character token up to the space belongs to the name, except the active one, which
-            // ends it; what follows the active character is typeset (it is \relax itself)
-            let (tex_name, leftover) = match name.find('~') {
-                Some(p) => (name[..p].to_string(), format!("{} ", &name[p + 1..])),
-                None => (name.clone(), String::new()),
-            };
-            let want = format!("{leftover}{}", if files.contains_key(&tex_name) { "F" } else { "T" });
-            let prog = format!("\\let~\\relax\\scrollmode \\openin 0={name} \\ifeof 0 T\\else F\\fi %");
-            let case = || json!({"kind": "openin-name", "program": prog, "files": files});
-            match vtex::run_fresh_with(&prog, |vm| {
-                let fs = vm.state.env.fs.borrow();
-                for (n, c) in &files {
-                    fs.add(&format!("{n}.tex"), c);
-                }
-            }) {
-                Outcome::Done(r) => {
-                    if r.out != want || r.err.is_some() {
-                        acc.fail(i, case(), want, r.show(), "\\openin opened another file than the name TeX scans (§526)");
-                    }
-                }
-                Outcome::Cutoff => acc.cutoffs += 1,
-                Outcome::Panic(p) => acc.fail(i, case(), want, p.describe(), "the VM panicked"),
-            }
+            judge_openin_name(i, &name, &files, acc);
         });
     }
     // F3: chains
